@@ -819,4 +819,241 @@ theorem Sorted.pair : ∀ {lo : Nat} {l : List DirEnt} {hi : Nat}, Sorted lo l h
           have := Sorted.pair hs i j a b (by omega) (by simpa using ha) hbj hza hzb
           omega
 
+
+-- records that point at blobs written elsewhere: modules, handles, link maps ------------------------------------------
+
+/-- the common shape: one fixed-size record per element, carrying the position of the element's blob -/
+def recsGen {α : Type} (rec : Nat → α → Bytes) (blobLen : α → Nat) : Nat → List α → Bytes
+  | _, [] => []
+  | pos, x :: r => rec pos x ++ recsGen rec blobLen (pos + blobLen x) r
+
+def sumLen {α : Type} (blobLen : α → Nat) (l : List α) : Nat := (l.map blobLen).sum
+
+theorem recsGen_at {α : Type} (rec : Nat → α → Bytes) (blobLen : α → Nat) (c : Nat) (hc : ∀ p x, (rec p x).length = c)
+    (pos : Nat) (l : List α) (k : Nat) (x : α) (h : l[k]? = some x) :
+    At (recsGen rec blobLen pos l) (c * k) (rec (pos + sumLen blobLen (l.take k)) x) := by
+  induction l generalizing pos k with
+  | nil => simp at h
+  | cons a r ih =>
+    cases k with
+    | zero =>
+      simp at h; subst h
+      simp only [recsGen, sumLen, List.take_zero, List.map_nil, List.sum_nil, Nat.add_zero, Nat.mul_zero]
+      exact At.head _ _
+    | succ k =>
+      have hr : r[k]? = some x := by simpa using h
+      have := ih (pos + blobLen a) k hr
+      have h2 := At.skip (rec pos a) c (hc _ _) this
+      have e1 : c + c * k = c * (k + 1) := by rw [Nat.mul_succ]; omega
+      have e2 : pos + blobLen a + sumLen blobLen (r.take k) = pos + sumLen blobLen ((a :: r).take (k + 1)) := by
+        simp only [sumLen, List.take_succ_cons, List.map_cons, List.sum_cons]; omega
+      rw [e1, e2] at h2
+      exact h2
+
+theorem recsGen_length {α : Type} (rec : Nat → α → Bytes) (blobLen : α → Nat) (c : Nat) (hc : ∀ p x, (rec p x).length = c)
+    (pos : Nat) (l : List α) : (recsGen rec blobLen pos l).length = c * l.length := by
+  induction l generalizing pos with
+  | nil => rfl
+  | cons a r ih => simp [recsGen, hc, ih, Nat.mul_succ]; omega
+
+theorem sumLen_flatMap {α : Type} (blob : α → Bytes) (l : List α) :
+    sumLen (fun x => (blob x).length) l = (l.flatMap blob).length := by
+  induction l with
+  | nil => rfl
+  | cons a r ih => simp [sumLen, List.flatMap_cons] at *
+
+/-- a blob-carrying list laid out as `blobs ++ mid ++ records` or `records ++ blobs`: element `k`'s blob is where its
+    record says -/
+theorem blob_at {α : Type} (blob : α → Bytes) (l : List α) (k : Nat) (x : α) (h : l[k]? = some x) :
+    At (l.flatMap blob) (sumLen (fun y => (blob y).length) (l.take k)) (blob x) := by
+  rw [sumLen_flatMap]; exact At.flatMap_take blob l k x h
+
+-- modules
+theorem moduleRec_length (pos : Nat) (m : DModule) : (moduleRec pos m).length = 108 := by
+  unfold moduleRec
+  cases m.ver with
+  | none => by_cases hi : m.ident.isEmpty <;> simp [hi, zeros]
+  | some v => obtain ⟨a, b, c, d⟩ := v; by_cases hi : m.ident.isEmpty <;> simp [hi, zeros]
+
+theorem moduleRecs_eq (pos : Nat) (ms : List DModule) :
+    moduleRecs pos ms = recsGen moduleRec (fun m => m.blob.length) pos ms := by
+  induction ms generalizing pos with
+  | nil => rfl
+  | cons a r ih => simp [moduleRecs, recsGen, ih]
+
+/-- position of module `k`'s blobs (CodeView record, then name) in the image -/
+def modulePos (d : DumpIn) (k : Nat) : Nat := (acc1 d).pos + sumLen (fun m : DModule => m.blob.length) (d.modules.take k)
+
+/-- **Image (module).** Module `k`'s record sits in slot `k` of the module list (published in directory slot 1); the
+    CodeView location it stores is where the signature and the identifier are, the name location it stores is where
+    the module's name string is. -/
+theorem Image_module (d : DumpIn) (k : Nat) (m : DModule) (hk : d.modules[k]? = some m) :
+    let cnt := (acc1 d).pos + (moduleBlobs d.modules).length
+    (dumpAcc d).dir[1]? = some ⟨ST_MODULE_LIST, 4 + 108 * d.modules.length, cnt⟩ ∧
+    At (dumpBytes d) cnt (le 4 d.modules.length) ∧
+    At (dumpBytes d) (cnt + 4 + 108 * k) (moduleRec (modulePos d k) m) ∧
+    At (dumpBytes d) (modulePos d k) m.cv ∧
+    At (dumpBytes d) (modulePos d k + m.cv.length) (mdStr m.name) := by
+  intro cnt
+  have hbytes : (acc2 d).bytes = (acc1 d).bytes ++ (moduleBlobs d.modules ++ (le 4 d.modules.length ++ moduleRecs (acc1 d).pos d.modules)) := by
+    simp [acc2, stModules, Acc.add, Acc.publish, List.append_assoc]
+  have hplace : At (acc2 d).bytes (acc1 d).bytes.length
+      (moduleBlobs d.modules ++ (le 4 d.modules.length ++ moduleRecs (acc1 d).pos d.modules)) := by
+    rw [hbytes]; exact At.end_ _ _
+  have hb := lift_pos d (acc1 d) (acc2 d) _ (base1 d) hplace (ext_2_19 d)
+  have hblobs := hb.sub_head
+  have htail := hb.sub_tail
+  have hcount : At (dumpBytes d) cnt (le 4 d.modules.length) := htail.sub_head
+  have hrecs : At (dumpBytes d) (cnt + 4) (moduleRecs (acc1 d).pos d.modules) := by
+    have := htail.sub_tail; simpa using this
+  have hrec := recsGen_at moduleRec (fun m : DModule => m.blob.length) 108 moduleRec_length (acc1 d).pos d.modules k m hk
+  rw [← moduleRecs_eq] at hrec
+  have hr : At (dumpBytes d) (cnt + 4 + 108 * k) (moduleRec (modulePos d k) m) := by
+    obtain ⟨pre, post, he, hl⟩ := hrec
+    obtain ⟨pre2, post2, he2, hl2⟩ := hrecs
+    refine ⟨pre2 ++ pre, post ++ post2, ?_, by simp [hl, hl2]⟩
+    rw [he2, he]; simp [List.append_assoc, modulePos]
+  have hblob : At (dumpBytes d) (modulePos d k) m.blob := by
+    have h1 := blob_at DModule.blob d.modules k m hk
+    obtain ⟨pre, post, he, hl⟩ := h1
+    obtain ⟨pre2, post2, he2, hl2⟩ := hblobs
+    refine ⟨pre2 ++ pre, post ++ post2, ?_, by simp [hl, hl2, modulePos]⟩
+    rw [he2]; unfold moduleBlobs; rw [he]; simp [List.append_assoc]
+  unfold DModule.blob at hblob
+  refine ⟨?_, hcount, hr, hblob.sub_head, hblob.sub_tail⟩
+  rw [dumpAcc_eq]
+  apply (ext_2_19 d).dir
+  simp [acc2, acc1, acc0, stModules, stThreadList, Acc.add, Acc.publish, Acc.pos, cnt]
+
+-- system info
+theorem base5 (d : DumpIn) : (acc5 d).base = 32 + 12 * d.numWriters := (ext_0_5 d).1
+where ext_0_5 (d : DumpIn) : Acc.Ext (acc0 d) (acc5 d) :=
+  (ext_0_1 d).trans ((ext_1_2 d).trans ((ext_2_3 d).trans ((ext_3_4 d).trans (ext_4_5 d))))
+
+/-- **Image (system info).** The record is where its directory entry says and the OS version location it stores is
+    where the version string is (right after the record). -/
+theorem Image_sysinfo (d : DumpIn) :
+    At (dumpBytes d) (acc5 d).pos (serSysInfo d.sys ((acc5 d).pos + 56)) ∧
+    At (dumpBytes d) ((acc5 d).pos + 56) (mdStr d.sys.os) := by
+  have hplace : At (acc6 d).bytes (acc5 d).bytes.length (serSysInfo d.sys ((acc5 d).pos + 56) ++ mdStr d.sys.os) := by
+    show At ((acc5 d).bytes ++ _) _ _
+    exact At.end_ _ _
+  have hb := lift_pos d (acc5 d) (acc6 d) _ (base5 d) hplace
+    ((ext_6_7 d).trans ((ext_7_14 d).trans ((ext_14_16 d).trans ((ext_16_17 d).trans (ext_17_19 d)))))
+  refine ⟨hb.sub_head, ?_⟩
+  have := hb.sub_tail
+  have hl : (serSysInfo d.sys ((acc5 d).pos + 56)).length = 56 := by simp [serSysInfo, padTo_length]
+  rw [hl] at this; exact this
+
+-- handle data
+theorem handleRecs_eq (pos : Nat) (hs : List DHandle) :
+    handleRecs pos hs = recsGen (fun p (h : DHandle) => le 8 h.fd ++ le 4 0 ++ le 4 p ++ le 4 h.attrs ++ le 4 0 ++ le 4 0 ++ le 4 0)
+      (fun h => (mdStr h.name).length) pos hs := by
+  induction hs generalizing pos with
+  | nil => rfl
+  | cons a r ih => simp [handleRecs, recsGen, ih]
+
+theorem base17 (d : DumpIn) : (acc17 d).base = 32 + 12 * d.numWriters := by
+  have := (ext_16_17 d).1; rw [this]; exact base16 d
+
+/-- **Image (handle).** When the handle writer succeeded, descriptor `k` carries the descriptor number and mode of
+    the `k`-th open file and the location of a string that is its link target. -/
+theorem Image_handle (d : DumpIn) (hs : List DHandle) (hok : d.handles = .ok hs) (k : Nat) (h : DHandle) (hk : hs[k]? = some h) :
+    let pos := (acc17 d).pos
+    let q := pos + sumLen (fun x : DHandle => (mdStr x.name).length) (hs.take k)
+    let hdr := pos + (handleNames hs).length
+    At (dumpBytes d) hdr (le 4 16 ++ le 4 32 ++ le 4 hs.length ++ le 4 0) ∧
+    At (dumpBytes d) (hdr + 16 + 32 * k) (le 8 h.fd ++ le 4 0 ++ le 4 q ++ le 4 h.attrs ++ le 4 0 ++ le 4 0 ++ le 4 0) ∧
+    At (dumpBytes d) q (mdStr h.name) := by
+  intro pos q hdr
+  have hbytes : (stHandles d (acc17 d)).bytes = (acc17 d).bytes ++ (handleNames hs ++
+      ((le 4 16 ++ le 4 32 ++ le 4 hs.length ++ le 4 0) ++ handleRecs (acc17 d).pos hs)) := by
+    simp [stHandles, hok, Acc.add, Acc.publish, List.append_assoc]
+  have hplace : At (stHandles d (acc17 d)).bytes (acc17 d).bytes.length (handleNames hs ++
+      ((le 4 16 ++ le 4 32 ++ le 4 hs.length ++ le 4 0) ++ handleRecs (acc17 d).pos hs)) := by
+    rw [hbytes]; exact At.end_ _ _
+  have hext : Acc.Ext (stHandles d (acc17 d)) (acc19 d) := ext_stRaw _ _ _
+  have hb := lift_pos d (acc17 d) (stHandles d (acc17 d)) _ (base17 d) hplace hext
+  have hnames := hb.sub_head
+  have htail := hb.sub_tail
+  have hhdr := htail.sub_head
+  have hrecs : At (dumpBytes d) (hdr + 16) (handleRecs (acc17 d).pos hs) := by
+    have := htail.sub_tail; simpa using this
+  let rec_ := fun p (h : DHandle) => le 8 h.fd ++ le 4 0 ++ le 4 p ++ le 4 h.attrs ++ le 4 0 ++ le 4 0 ++ le 4 0
+  have hc : ∀ p (x : DHandle), (rec_ p x).length = 32 := by intro p x; simp [rec_]
+  have hrec := recsGen_at rec_ (fun x : DHandle => (mdStr x.name).length) 32 hc (acc17 d).pos hs k h hk
+  rw [← handleRecs_eq] at hrec
+  have hr : At (dumpBytes d) (hdr + 16 + 32 * k) (rec_ q h) := by
+    obtain ⟨pre, post, he, hl⟩ := hrec
+    obtain ⟨pre2, post2, he2, hl2⟩ := hrecs
+    refine ⟨pre2 ++ pre, post ++ post2, ?_, by simp [hl, hl2]⟩
+    rw [he2, he]; simp [List.append_assoc, q, pos]
+  have hstr : At (dumpBytes d) q (mdStr h.name) := by
+    have h1 := blob_at (fun x : DHandle => mdStr x.name) hs k h hk
+    obtain ⟨pre, post, he, hl⟩ := h1
+    obtain ⟨pre2, post2, he2, hl2⟩ := hnames
+    refine ⟨pre2 ++ pre, post ++ post2, ?_, by simp [hl, hl2, q, pos]⟩
+    rw [he2]; unfold handleNames; rw [he]; simp [List.append_assoc]
+  exact ⟨hhdr, hr, hstr⟩
+
+-- linker debug data
+theorem linkMapRecs_eq (pos : Nat) (ms : List DLinkMap) :
+    linkMapRecs pos ms = recsGen (fun p (m : DLinkMap) => le 8 m.addr ++ le 4 p ++ le 8 m.ld)
+      (fun m => (mdStr m.name).length) pos ms := by
+  induction ms generalizing pos with
+  | nil => rfl
+  | cons a r ih => simp [linkMapRecs, recsGen, ih]
+
+theorem base14 (d : DumpIn) : (acc14 d).base = 32 + 12 * d.numWriters := (ext_0_14 d).1
+where ext_0_14 (d : DumpIn) : Acc.Ext (acc0 d) (acc14 d) :=
+  (ext_0_1 d).trans ((ext_1_2 d).trans ((ext_2_3 d).trans ((ext_3_4 d).trans ((ext_4_5 d).trans ((ext_5_6 d).trans
+    ((ext_6_7 d).trans (ext_7_14 d)))))))
+
+/-- **Image (link map).** When the linker-debug writer succeeded with a non-empty list, entry `k` of the link-map
+    array carries the load address and dynamic-section address of the `k`-th loaded object and the location of a
+    string that is its name; the MDRawDebug record stores the array's location and is followed by the dynamic bytes. -/
+theorem Image_link_map (d : DumpIn) (x : DDso) (hok : d.dso = .ok x) (hne : x.maps ≠ []) (k : Nat) (m : DLinkMap)
+    (hk : x.maps[k]? = some m) :
+    let pos := (acc14 d).pos
+    let q := pos + 20 * x.maps.length + sumLen (fun y : DLinkMap => (mdStr y.name).length) (x.maps.take k)
+    At (dumpBytes d) (pos + 20 * k) (le 8 m.addr ++ le 4 q ++ le 8 m.ld) ∧
+    At (dumpBytes d) q (mdStr m.name) ∧
+    At (dumpBytes d) (pos + (dsoPrefix pos x).length) (serDsoDebug pos x ++ x.dyn) := by
+  intro pos q
+  have hemp : x.maps.isEmpty = false := by cases hm : x.maps with
+    | nil => exact absurd hm hne
+    | cons a r => rfl
+  have hpre : dsoPrefix pos x = linkMapRecs (pos + 20 * x.maps.length) x.maps ++ linkMapNames x.maps := by
+    simp [dsoPrefix, hemp]
+  have hbytes : (stDso d (acc14 d)).bytes = (acc14 d).bytes ++ (dsoPrefix pos x ++ (serDsoDebug pos x ++ x.dyn)) := by
+    simp [stDso, hok, Acc.add, Acc.publish, List.append_assoc, pos]
+  have hplace : At (stDso d (acc14 d)).bytes (acc14 d).bytes.length (dsoPrefix pos x ++ (serDsoDebug pos x ++ x.dyn)) := by
+    rw [hbytes]; exact At.end_ _ _
+  have hext : Acc.Ext (stDso d (acc14 d)) (acc19 d) := (ext_stRaw _ _ _).trans (ext_16_19 d)
+  have hb := lift_pos d (acc14 d) (stDso d (acc14 d)) _ (base14 d) hplace hext
+  have hprefix := hb.sub_head
+  have hrest := hb.sub_tail
+  rw [hpre] at hprefix
+  have hrecs := hprefix.sub_head
+  have hnames : At (dumpBytes d) (pos + 20 * x.maps.length) (linkMapNames x.maps) := by
+    have := hprefix.sub_tail
+    rw [linkMapRecs_eq, recsGen_length _ _ 20 (by intro p y; simp)] at this
+    exact this
+  let rec_ := fun p (m : DLinkMap) => le 8 m.addr ++ le 4 p ++ le 8 m.ld
+  have hc : ∀ p (y : DLinkMap), (rec_ p y).length = 20 := by intro p y; simp [rec_]
+  have hrec := recsGen_at rec_ (fun y : DLinkMap => (mdStr y.name).length) 20 hc (pos + 20 * x.maps.length) x.maps k m hk
+  rw [← linkMapRecs_eq] at hrec
+  have hr : At (dumpBytes d) (pos + 20 * k) (rec_ q m) := by
+    obtain ⟨pre, post, he, hl⟩ := hrec
+    obtain ⟨pre2, post2, he2, hl2⟩ := hrecs
+    refine ⟨pre2 ++ pre, post ++ post2, ?_, by simp [hl, hl2, pos]⟩
+    rw [he2, he]; simp [List.append_assoc, q]
+  have hstr : At (dumpBytes d) q (mdStr m.name) := by
+    have h1 := blob_at (fun y : DLinkMap => mdStr y.name) x.maps k m hk
+    obtain ⟨pre, post, he, hl⟩ := h1
+    obtain ⟨pre2, post2, he2, hl2⟩ := hnames
+    refine ⟨pre2 ++ pre, post ++ post2, ?_, by simp [hl, hl2, q]⟩
+    rw [he2]; unfold linkMapNames; rw [he]; simp [List.append_assoc]
+  exact ⟨hr, hstr, hrest⟩
+
 end Mdw
